@@ -38,7 +38,7 @@ when production is refused, that number, or the corresponding data counter, has 
 (Until /repo 6924f89 the counters of a chain with initial height `I > 1` started at `I − 1` "pending" blocks that do not
 exist — finding `C08/refuses/initial-height-counted-as-pending`, fixed — and this theorem needed `initialHeight = 1`.) -/
 theorem C08_refusal_counts_unacknowledged (c : Cfg) (h1 : 1 ≤ c.initialHeight) (acts : List ActR) :
-    let a := runR c { n := freshNode c } acts
+    let a := runR c (freshA c) acts
     (c.initialHeight - 1 ≤ a.n.hdrWm ∧ a.n.hdrWm ≤ a.n.store.height) ∧
     (c.initialHeight - 1 ≤ a.n.dataWm ∧ a.n.dataWm ≤ a.n.store.height) ∧
     (∀ h, c.initialHeight ≤ h → h ≤ a.n.hdrWm → ∃ b dh, a.n.store.getBlock h = some b ∧ b.sh.hdr.height = h ∧
@@ -95,13 +95,13 @@ theorem C08_header_counter_clears (a : ANode) (fails tail : List DAAns)
 refused — for every chain, in particular an idle one that produces only empty blocks -/
 def C08_data_full : Prop :=
   ∀ (c : Cfg) (rs : List (SeqResp × ExecResp)), 1 ≤ c.initialHeight →
-    pendingRefuses c (runOps { n := run c (freshNode c) rs } [.subH [], .subD []]).n = false
+    pendingRefuses c (runOps { freshA c with n := run c (freshNode c) rs } [.subH [], .subD []]).n = false
 
 def zCfg : Cfg := { chainId := "w", initialHeight := 1, genesisTime := 100, proposerAddr := [1], key := 1,
                     signerAddr := [1], maxPending := 3 }
 /-- an idle chain: three empty blocks -/
 def zRun : List (SeqResp × ExecResp) := [(.batch [] 150 [], .ok), (.batch [] 200 [], .ok), (.batch [] 300 [], .ok)]
-def zNode : ANode := runOps { n := run zCfg (freshNode zCfg) zRun } [.subH [], .subD []]
+def zNode : ANode := runOps { freshA zCfg with n := run zCfg (freshNode zCfg) zRun } [.subH [], .subD []]
 
 /-- the witness, evaluated by the kernel: limit 3, three empty blocks; the header iteration brings `hdrWm` to 3, the
 data iteration is skipped and leaves `dataWm = 0`; production is refused -/
@@ -175,7 +175,7 @@ theorem C08_no_refusal_when_both_clear (c : Cfg) (n : Node) (h1 : n.hdrWm = n.st
 /-- a chain whose last block is non-empty (limit 3, heights 1–3): the hypotheses of the partial theorem hold, both
 iterations clear the counters and production is not refused -/
 def vRun : List (SeqResp × ExecResp) := [(.batch [] 150 [], .ok), (.batch [] 200 [], .ok), (.batch [[7]] 300 [], .ok)]
-def vNode : ANode := { n := run zCfg (freshNode zCfg) vRun }
+def vNode : ANode := { freshA zCfg with n := run zCfg (freshNode zCfg) vRun }
 
 example : pendingRefuses zCfg vNode.n = true ∧
     (runOps vNode [.subH [], .subD []]).n.dataWm = 3 ∧ (runOps vNode [.subH [], .subD []]).n.hdrWm = 3 ∧
